@@ -166,13 +166,19 @@ template <integral Int, to_integer_options Options = to_integer_options{}>
     }
 
     // loop over rest of digits
+    [[maybe_unused]] auto overflow = false;
     for (; pos != length; ++pos) {
         auto const digit = parseDigit(static_cast<int>(str[pos]));
         if (digit >= base) {
             break;
         }
 
-        if (wouldOverflow(value, digit)) {
+        if (overflow or wouldOverflow(value, digit)) {
+            if constexpr (Options.c_library_syntax) {
+                // like strtol: all digits are consumed, the result is the nearest limit
+                overflow = true;
+                continue;
+            }
             return makeError(to_integer_error::overflow);
         }
 
@@ -184,15 +190,28 @@ template <integral Int, to_integer_options Options = to_integer_options{}>
     }
 
     if constexpr (signed_integral<Int>) {
-        if (positive) {
+        if (positive and not overflow) {
             if (value == numeric_limits<Int>::min()) {
-                return makeError(to_integer_error::overflow);
+                if constexpr (not Options.c_library_syntax) {
+                    return makeError(to_integer_error::overflow);
+                }
+                overflow = true;
+            } else {
+                value *= Int(-1);
             }
-            value *= Int(-1);
         }
     }
 
     auto const end = etl::next(str.data(), static_cast<etl::ptrdiff_t>(pos));
+    if (overflow) {
+        auto limit = numeric_limits<Int>::max();
+        if constexpr (signed_integral<Int>) {
+            if (not positive) {
+                limit = numeric_limits<Int>::min();
+            }
+        }
+        return {.end = end, .error = to_integer_error::overflow, .value = limit};
+    }
     return {.end = end, .error = to_integer_error::none, .value = value};
 }
 
